@@ -154,6 +154,9 @@ pub fn install_panic_hook() {
             "<non-string panic>".to_string()
         };
         let loc = info.location().map(|l| format!("{}:{}", l.file(), l.line())).unwrap_or_default();
+        if std::env::var("VERIF_DEBUG_PANIC").is_ok() {
+            eprintln!("panic: {} @ {}", msg, loc);
+        }
         LAST_PANIC.with(|p| *p.borrow_mut() = Some(format!("{} @ {}", msg, loc)));
     }));
 }
